@@ -255,6 +255,8 @@ def main():
         known = load_known()
         machinery, violations, known_lines = [], [], []
         obligations = discharged = 0
+        capped_obl = capped_dis = capped_known = 0
+        capped_inst = []
         known_obls = []
         units_ev, samples, mut_ev = [], [], []
         for r in sorted(results, key=lambda r: (r["unit"], r["instance"], (r["_mutant"] or {}).get("name", ""))):
@@ -271,6 +273,11 @@ def main():
                 machinery.append("%s/%s: %s" % (r["unit"], r["instance"], " | ".join(r["reason"].splitlines()[:6])[:700]))
             obligations += r["obligations"]
             discharged += r["discharged"]
+            if r.get("loops_unwound", 0) > 0:
+                # loops closed by complete unwinding up to the size cap, not by a loop contract: exhaustive up to the cap only
+                capped_obl += r["obligations"]
+                capped_dis += r["discharged"]
+                capped_inst.append("%s/%s (%d loops unwound)" % (r["unit"], r["instance"], r.get("loops_unwound", 0)))
             uev = {k: r[k] for k in ("unit", "instance", "function", "status", "obligations", "discharged", "solver_s", "time_s", "rmode", "backend", "slices")}
             uev["loops_under_contract"] = r.get("loops_under_contract", 0)
             uev["loops_unwound_completely"] = r.get("loops_unwound", 0)
@@ -292,6 +299,8 @@ def main():
                     if k:
                         known_lines.append("KNOWN-FINDING: property=%s %s" % (prop, k["what"]))
                         known_obls.append("%s/%s %s: %s [%s:%s]" % (r["unit"], r["instance"], f["id"], f["description"], f["file"], f["line"]))
+                        if r.get("loops_unwound", 0) > 0:
+                            capped_known += 1
                     else:
                         unknown.append(f)
                 if unknown:
@@ -371,8 +380,11 @@ def main():
                 "coverage": {
                     # obligations that fail ONLY because of a listed open known finding are reported separately: the proof-level
                     # claim of this run is about all the others (obligations == discharged), the findings stay visible below
-                    "obligations": obligations - len(known_obls), "discharged": discharged,
+                    # instances whose loops are closed by complete unwinding up to the object-size cap (not by a loop contract) are
+                    # bounded: their obligations are listed separately and are not part of the proof-level counts
+                    "obligations": obligations - capped_obl - (len(known_obls) - capped_known), "discharged": discharged - capped_dis,
                     "obligations_generated_in_total": obligations,
+                    "bounded_by_complete_unwinding_not_counted_as_proof": {"instances": capped_inst, "obligations": capped_obl, "discharged": capped_dis},
                     "obligations_failing_for_an_open_known_finding": known_obls,
                     "checker_cmd": "goto-cc (C++ slices + C contracts) | goto-instrument --dfcc <harness> --enforce-contract <w_fn> [--replace-call-with-contract g] --apply-loop-contracts --loop-contracts-file loops.json | cbmc --bounds-check --pointer-check [--signed-overflow-check] (SAT back end); driver: /verif/bin/check %s --tier %s" % (prop, a.tier),
                     "trusted_base": trusted,
